@@ -87,8 +87,8 @@ def main(tier):
     if r.violated:
         vd.violation('design:' + r.violated[0], 'RouterApi violates %s at design level' % r.violated[0], {'tlc_tail': r.out[-5000:]})
     # ---- B1: histories from the specification
-    nh = 2500 if quick else 20000
-    hists, rg = gen_histories(d, nh, 14 if quick else 18, 7 if quick else 9, V.seed(), quick)
+    nh = 6000 if quick else 20000
+    hists, rg = gen_histories(d, nh, 18, 9, V.seed(), quick)
     ev.add_tlc('history generation (simulation of RouterApiMC)', rg)
     rnd = random.Random(V.seed())
     hf = os.path.join(d, 'hists.txt')
